@@ -219,6 +219,16 @@ def g_realloc(t, n):
             else:
                 t.emit(op, s, new)
             t.bytes += new - cur; t.size_of[s] = new
+        elif k < 0.89:
+            # re-allocation of a NULL pointer (free slot), incl. size 0, through every variant
+            s = t.slot()
+            if s is not None:
+                op = r.choice(["R", "RZ", "RC", "RN", "RF", "RA", "RZA", "RR"])
+                new = r.choice([0, 0, 1, 8, 100, 5000])
+                if op in ("RC", "RN", "RR"): t.emit(op, s, r.choice([1, 2]) if new else r.choice([0, 1]), new)
+                elif op in ("RA", "RZA"): t.emit(op, s, new, r.choice([8, 16, 64, 4096]), 0)
+                else: t.emit(op, s, new)
+                t.live[s] = 0; t.size_of[s] = new; chains.append(s)
         elif k < 0.92:
             s = r.choice(chains); t.emit("E", s, r.randrange(0, 20000))
         else:
